@@ -160,49 +160,80 @@ def _r10(ctx):
 
 
 def _r1(ctx):
+    """Decided on the symbolic value each modifier returns (sa/absint.TermDomain, helper methods followed): the class
+    constructor applied to the curve data with exactly the item 'k_2' replaced by inf / k_1 / 2 k_1 - 1; plus the effect
+    summary: nothing reaches the original curve data."""
+    from ..absint import Interp, TermDomain, term_walk, term_to_nf, term_alternatives
     prog = ctx.prog
     ctx.rule("R-C08-1", floor=3, what="Miner modifiers: fresh copy, write only k_2, value inf / k_1 / 2k_1-1, class constructor")
     eff = Effects(prog)
     want = {"miner_original": None, "miner_elementary": "k1", "miner_haibach": "2*k1 - 1"}
+
+    def atom(z):
+        if isinstance(z, tuple) and len(z) == 3 and z[0] == "attr" and z[2] == "k_1":
+            return "k1"
+        if z == ("self", "k_1"):
+            return "k1"
+        return None
     for name, ref in want.items():
         f = prog.func(WC + "." + name)
         s = eff.summary(f)
         caller_eff = [e for e in s["effects"] if e.origin == ("self", "_obj") or e.origin[0] == "param"]
-        stores = [st for st in walk_function(f.node) if isinstance(st, ast.Assign) and isinstance(st.targets[0], ast.Subscript)]
-        ret = [st for st in f.node.body if isinstance(st, ast.Return)]
         problems = []
         if caller_eff:
             problems.append("writes into the original curve (%s at line %d)" % (caller_eff[0].kind, caller_eff[0].lineno))
-        keys = [const_value(st.targets[0].slice) for st in stores]
-        if keys != ["k_2"]:
-            problems.append("writes keys %s, only k_2 may change" % keys)
+        t = Interp(prog, TermDomain()).run(f, [])
+        alts = term_alternatives(t)
+        if len(alts) != 1:
+            raise AnalysisError("%s: several different return values" % name)
+        t = alts[0]
+        arg = None
+        ctor = None
+        if isinstance(t, tuple) and t[0] == "m" and t[2] == "__class__" and len(t[3]) == 1:
+            arg, ctor = t[3][0], "self.__class__"
+        elif isinstance(t, tuple) and t[0] == "call" and len(t[2]) == 1 and (t[1] in ("WoehlerCurve", "type(self)") or t[1] is None or
+                                                                          t[1] == ""):
+            arg, ctor = t[2][0], t[1] or "type(self)"
+        if arg is None and isinstance(t, tuple) and t[0] == "where" and any(y == ("self", "_obj") for y in term_walk(t)):
+            ctx.violated(f, f.node, "%s returns the modified curve data itself, not a curve object built by the class constructor "
+                         "(the accessor's methods are not available on it, a .fatigue object degrades to plain data)" % name,
+                         text="%s: raw data" % name)
+            continue
+        if arg is None:
+            raise AnalysisError("%s: the returned value %r is not recognised as a curve object built by the class constructor" %
+                                (name, t[:3] if isinstance(t, tuple) else t))
+        keys = []
+        base = arg
+        val = None
+        while isinstance(base, tuple) and len(base) == 4 and base[0] == "where" and isinstance(base[1], tuple) and base[1][0] == "c":
+            keys.append(base[1][1])
+            if base[1][1] == "k_2" and val is None:
+                val = base[2]
+            base = base[3]
+        if isinstance(base, tuple) and base[0] == "at" and base[1] == ("self", "_obj"):
+            ctx.violated(f, f.node, "%s builds the new curve from a selection of the curve data (%r): every other item of the curve "
+                         "(e.g. its failure probability or additional columns) is lost in the modified copy" % (name, base[2]),
+                         text="%s: selection of the data" % name)
+            continue
+        if base != ("self", "_obj"):
+            raise AnalysisError("%s: the modified data %r does not start from the curve data of the object" % (name, base))
+        if sorted(keys) != ["k_2"]:
+            problems.append("writes keys %s, only k_2 may change" % sorted(keys))
         else:
-            v = stores[0].value
             if ref is None:
-                ok = norm_text(v) in ("np.inf", "float('inf')", "numpy.inf", "math.inf")
+                ok = val in (("attr", ("?",), "inf"), ("call", "float", (("c", "inf"),), ())) or \
+                    (isinstance(val, tuple) and val[0] == "attr" and val[2] == "inf") or val == ("c", float("inf"))
             else:
                 try:
-                    ok = to_nf(v, atom=_atom) == to_nf(parse_expr(ref), atom=_atom)
+                    ok = term_to_nf(val, atom) == to_nf(parse_expr(ref), atom=_atom)
                 except NFUnsupported:
                     ok = False
             if not ok:
-                problems.append("k_2 := %s, expected %s" % (norm_text(v), ref or "inf"))
-            tgt = stores[0].targets[0].value
-            defs = [st for st in f.node.body if isinstance(st, ast.Assign) and isinstance(st.targets[0], ast.Name)
-                    and isinstance(tgt, ast.Name) and st.targets[0].id == tgt.id]
-            fresh = defs and isinstance(defs[0].value, ast.Call) and isinstance(defs[0].value.func, ast.Attribute) and \
-                defs[0].value.func.attr == "copy" and is_self_attr(defs[0].value.func.value, "_obj")
-            if not fresh:
-                problems.append("the modified object is not a copy of the curve data")
-            rc = ret[0].value if ret else None
-            built = isinstance(rc, ast.Call) and rc.args and isinstance(rc.args[0], ast.Name) and isinstance(tgt, ast.Name) \
-                and rc.args[0].id == tgt.id and norm_text(rc.func) in ("self.__class__", "type(self)", "WoehlerCurve")
-            if not built:
-                problems.append("result is not built from the modified copy through the class constructor")
+                problems.append("k_2 := %r, expected %s" % (val, ref or "inf"))
         if problems:
-            ctx.violated(f, stores[0] if stores else f.node, "%s: %s" % (name, "; ".join(problems)), text="%s: %s" % (name, problems[0]))
+            ctx.violated(f, f.node, "%s: %s" % (name, "; ".join(problems)), text="%s: %s" % (name, problems[0][:60]))
         else:
-            ctx.holds(f, stores[0], "%s: copy, k_2 := %s, %s(new)" % (name, ref or "inf", norm_text(ret[0].value.func)))
+            ctx.holds(f, f.node, "%s: copy of the curve data, k_2 := %s, %s(new)" % (name, ref or "inf", ctor))
 
 
 def _r2(ctx):
@@ -408,54 +439,65 @@ def _r3(ctx):
 
 
 def _r4(ctx):
+    """Evaluated on symbolic terms (sa/absint.TermDomain): whatever temporaries, helper functions or if/else shapes the code
+    uses, the slope handed to the power law must be  where(load < SD, k_2, k_1)  in the cycles direction and
+    where(cycles > ND, k_2, k_1)  in the load direction (strict: the knee itself keeps k_1)."""
+    from ..absint import Interp, TermDomain, term_walk
     prog = ctx.prog
     ctx.rule("R-C08-4", floor=3, what="slope selectors are mirror images: load < SD  <=>  cycles > ND ; k_2 below the limit")
-    mk = prog.func(WC + "._make_k")
-    src, ref = mk.params[1], mk.params[2]
-    bl = [s for s in mk.node.body if isinstance(s, ast.Assign) and isinstance(s.targets[0], ast.Name)
-          and any(isinstance(n, ast.Compare) for n in ast.walk(s.value))]
-    if len(bl) != 1:
-        raise AnalysisError("_make_k: below-limit mask not found")
-    cmp_ = [n for n in ast.walk(bl[0].value) if isinstance(n, ast.Compare)][0]
-    ok = isinstance(cmp_.ops[0], ast.Lt) and norm_text(cmp_.left) == src and norm_text(cmp_.comparators[0]) == ref
-    if ok:
-        ctx.holds(mk, bl[0], "below-limit mask is src < ref (strict: the knee itself keeps k_1)")
-    else:
-        ctx.violated(mk, bl[0], "below-limit mask is %s, expected %s < %s" % (norm_text(cmp_), src, ref))
-    st = [s for s in mk.node.body if isinstance(s, ast.Assign) and isinstance(s.targets[0], ast.Subscript)]
-    mask = bl[0].targets[0].id
-    rk = [s for s in mk.node.body if isinstance(s, ast.Return)][-1]
-    kn = rk.value.id if isinstance(rk.value, ast.Name) else None
-    k2n = [s.targets[0].id for s in mk.node.body if isinstance(s, ast.Assign) and isinstance(s.targets[0], ast.Name) and
-           any(isinstance(n, ast.Attribute) and n.attr == "k_2" for n in ast.walk(s.value))]
-    ok = len(st) == 1 and kn is not None and k2n and norm_text(st[0].targets[0]) == "%s[%s]" % (kn, mask) and \
-        norm_text(st[0].value) == "%s[%s]" % (k2n[0], mask)
-    k0 = [s for s in mk.node.body if isinstance(s, ast.Assign) and isinstance(s.targets[0], ast.Name) and s.targets[0].id == kn]
-    ok = ok and k0 and any(isinstance(n, ast.Attribute) and n.attr == "k_1" for n in ast.walk(k0[0].value)) and \
-        any(isinstance(c.func, ast.Attribute) and c.func.attr == "copy" for c in calls_in(k0[0].value))
-    if ok:
-        ctx.holds(mk, st[0], "k = copy of k_1, replaced by k_2 exactly below the limit")
-    else:
-        ctx.violated(mk, st[0] if st else mk.node, "slope selection is not 'copy of k_1, k_2 below the limit'")
-    calls = {}
-    for name in ("basquin_cycles", "basquin_load"):
+
+    def has_attr(t, name):
+        return any(isinstance(y, tuple) and len(y) == 3 and y[0] == "attr" and y[2] == name for y in term_walk(t))
+
+    def has_param(t, name):
+        return any(y == ("p", name) for y in term_walk(t))
+    found = {}
+    for name, given, ref in (("basquin_cycles", "load", "SD"), ("basquin_load", "cycles", "ND")):
         f = prog.func(WC + "." + name)
-        cs = [c for c in calls_in(f.node) if isinstance(c.func, ast.Attribute) and c.func.attr == "_make_k"]
-        if len(cs) != 1:
-            raise AnalysisError("%s: _make_k call not found" % name)
-        calls[name] = (f, cs[0])
-    f, c = calls["basquin_cycles"]
-    a, b = c.args[0], c.args[1]
-    ok1 = isinstance(a, ast.Name) and isinstance(b, ast.Attribute) and b.attr == "SD"
-    f2, c2 = calls["basquin_load"]
-    a2, b2 = c2.args[0], c2.args[1]
-    neg = lambda e: isinstance(e, ast.UnaryOp) and isinstance(e.op, ast.USub)
-    ok2 = neg(a2) and neg(b2) and isinstance(b2.operand, ast.Attribute) and b2.operand.attr == "ND"
-    if ok1 and ok2:
-        ctx.holds(f2, c2, "cycles direction selects load < SD, load direction selects -cycles < -ND, i.e. cycles > ND")
-    else:
-        ctx.violated(f2, c2, "slope selectors are not mirror images: cycles direction %s, load direction %s (needed: load < SD "
-                     "and cycles > ND)" % (norm_text(c), norm_text(c2)))
+        t = Interp(prog, TermDomain()).run(f, [("p", q) for q in f.params if q != "self"])
+        sels = []
+        for x in term_walk(t):
+            is_k = lambda z: isinstance(z, tuple) and len(z) == 3 and z[0] == "attr" and z[2] in ("k_1", "k_2")
+            if isinstance(x, tuple) and len(x) == 4 and x[0] == "where" and is_k(x[2]) and is_k(x[3]) and x not in sels:
+                sels.append(x)
+        if not sels:
+            raise AnalysisError("%s: slope selection where(<below limit>, k_2, k_1) not found in the symbolic value" % name)
+        for sel in sels:
+            _, cond, below, above = sel
+            ok_vals = below[2] == "k_2" and above[2] == "k_1"
+            side = None
+            strict = None
+            if isinstance(cond, tuple) and len(cond) == 4 and cond[0] == "cmp" and cond[1] in ("lt", "le"):
+                strict = cond[1] == "lt"
+                lo, hi = cond[2], cond[3]
+                neg = lambda z: isinstance(z, tuple) and len(z) == 3 and z[0] == "u" and z[1] == "usub"
+                if neg(lo) and neg(hi):
+                    lo, hi = hi[2], lo[2]              # -a < -b  <=>  b < a
+                head_ref = lambda z: isinstance(z, tuple) and len(z) == 3 and z[0] == "attr" and z[2] == ref
+                if head_ref(hi) and not head_ref(lo) and has_param(lo, given):
+                    side = "below"                      # given < reference
+                elif head_ref(lo) and not head_ref(hi) and has_param(hi, given):
+                    side = "above"                      # given > reference
+            want = "below" if given == "load" else "above"
+            if side is None:
+                raise AnalysisError("%s: condition of the slope selection not understood: %r" % (name, cond))
+            if ok_vals and side == want and strict:
+                ctx.holds(f, f.node, "%s: slope = k_2 where %s %s %s (strict), k_1 elsewhere" %
+                          (name, given, "<" if want == "below" else ">", ref))
+                found[name] = True
+            else:
+                what = []
+                if not ok_vals:
+                    what.append("the selected values are not (k_2 beyond the knee, k_1 before it)")
+                if side != want:
+                    what.append("k_2 is selected where %s is %s %s" % (given, "<" if side == "below" else ">", ref))
+                if not strict:
+                    what.append("the comparison is not strict: the knee itself gets k_2")
+                ctx.violated(f, f.node, "%s: slope selection is wrong: %s (needed: k_2 exactly where %s %s %s)" %
+                             (name, "; ".join(what), given, "<" if want == "below" else ">", ref), text="selector " + name)
+    mk = prog.functions.get(WC + "._make_k")
+    if mk is not None:
+        ctx.holds(mk, mk.node, "slope selector evaluated symbolically through both callers")
 
 
 def _r5(ctx):
@@ -537,101 +579,129 @@ def _r6(ctx):
 
 
 def _r7(ctx):
+    """Decided on the symbolic value of transform_to_failure_probability (sa/absint.TermDomain): the data stored under 'SD' is
+    SD / 10**((z_native - z_goal) * std(TS)), under 'ND' it is ND / 10**((z_native - z_goal) * std(TN)), moved along the k_1
+    line by (SD'/SD)**(-k_1) exactly where SD' != 0, and the goal is recorded as the new native probability - whatever
+    temporaries or helper functions the code uses."""
+    from ..absint import Interp, TermDomain, term_walk
     prog = ctx.prog
     ctx.rule("R-C08-7", floor=4, what="probability shift: same probit difference for SD and ND, std of TS resp. TN, new native probability = goal")
     f = prog.func(WC + ".transform_to_failure_probability")
     goal = [p for p in f.params if p != "self"][0]
-    defs = {}
-    for s in f.node.body:
-        if isinstance(s, ast.Assign) and isinstance(s.targets[0], ast.Name):
-            defs.setdefault(s.targets[0].id, []).append(s)
-    # roles: what is stored under the keys of the transformed curve
+    t = Interp(prog, TermDomain()).run(f, [("p", goal)])
     stored = {}
-    for s in f.node.body:
-        if isinstance(s, ast.Assign) and isinstance(s.targets[0], ast.Subscript) and isinstance(const_value(s.targets[0].slice), str) \
-                and isinstance(s.targets[0].value, ast.Name):
-            stored[const_value(s.targets[0].slice)] = (s, s.value)
+    for x in term_walk(t):
+        if isinstance(x, tuple) and len(x) == 4 and x[0] == "where" and isinstance(x[1], tuple) and x[1][:1] == ("c",) and \
+                isinstance(x[1][1], str):
+            stored.setdefault(x[1][1], x[2])
     for k in ("SD", "ND"):
         if k not in stored:
-            raise AnalysisError("transform_to_failure_probability: transformed[%r] is not stored" % k)
-    tname = stored["SD"][0].targets[0].value.id
+            raise AnalysisError("transform_to_failure_probability: the value stored under %r was not found" % k)
 
-    def ppf_source(name):
-        d = defs.get(name, [])
-        if len(d) != 1:
-            return None
-        v = d[0].value
-        return v.args[0] if isinstance(v, ast.Call) and (call_name(v) or "").endswith("norm.ppf") and v.args else None
+    def is_op(z, name):
+        return isinstance(z, tuple) and len(z) == 4 and z[0] == "op" and z[1] == name
 
-    def shape(key, scatter):
-        s_, val = stored[key]
-        if not isinstance(val, ast.Name) or len(defs.get(val.id, [])) != 1:
-            return "transformed[%r] is not a single local definition" % key, None
-        d = defs[val.id][0]
-        v = d.value
-        while isinstance(v, ast.Call) and call_name(v) in ("np.asarray", "np.array"):
-            v = v.args[0]
-        if not (isinstance(v, ast.BinOp) and isinstance(v.op, ast.Div) and isinstance(v.left, ast.Attribute) and v.left.attr == key):
-            return "not %s / 10**(...)" % key, d
-        dv = v.right
-        if not (isinstance(dv, ast.BinOp) and isinstance(dv.op, ast.Pow) and const_value(dv.left) == 10):
-            return "divisor is not a power of ten", d
-        ex = dv.right
-        if not (isinstance(ex, ast.BinOp) and isinstance(ex.op, ast.Mult)):
-            return "exponent is not a product", d
-        parts = [ex.left, ex.right]
-        diff = [p_ for p_ in parts if isinstance(p_, ast.BinOp) and isinstance(p_.op, ast.Sub)]
-        std = [p_ for p_ in parts if isinstance(p_, ast.Call) and (call_name(p_) or "").endswith("scattering_range_to_std")]
+    def is_attr(z, name):
+        return isinstance(z, tuple) and len(z) == 3 and z[0] == "attr" and z[2] == name
+
+    def is_call(z, suffix):
+        return isinstance(z, tuple) and len(z) == 4 and z[0] == "call" and z[1].endswith(suffix) and len(z[2]) >= 1
+
+    def has_goal(z):
+        return any(y == ("p", goal) for y in term_walk(z))
+
+    def shift(z, key, scatter):
+        """-> (problem or None, understood?)"""
+        if not (is_op(z, "/") and is_attr(z[2], key)):
+            return "it is not %s divided by a power of ten" % key, False
+        den = z[3]
+        if not (is_op(den, "**") and den[2] == ("c", 10)):
+            return "the divisor is not a power of ten", False
+        e = den[3]
+        if not is_op(e, "*"):
+            return "the exponent is not a product", False
+        parts = [e[2], e[3]]
+        diff = [q for q in parts if is_op(q, "-")]
+        std = [q for q in parts if is_call(q, "scattering_range_to_std")]
         if len(diff) != 1 or len(std) != 1:
-            return "exponent is not (probit difference) * std", d
-        a, b = diff[0].left, diff[0].right
-        sa = ppf_source(a.id) if isinstance(a, ast.Name) else None
-        sb = ppf_source(b.id) if isinstance(b, ast.Name) else None
-        native_ok = isinstance(sa, ast.Attribute) and sa.attr == "failure_probability"
-        goal_ok = isinstance(sb, ast.Name) and sb.id == goal
-        if not (native_ok and goal_ok):
-            return "probit difference is %s with sources (%s, %s); expected native(curve) - goal(argument)" % (
-                norm_text(diff[0]), norm_text(sa) if sa is not None else None, norm_text(sb) if sb is not None else None), d
-        arg = std[0].args[0]
-        if not (isinstance(arg, ast.Attribute) and arg.attr == scatter):
-            return "std is taken from %s, expected %s" % (norm_text(arg), scatter), d
-        return None, d
-    for key, sc in (("SD", "TS"), ("ND", "TN")):
-        p, d = shape(key, sc)
-        if p is None:
-            ctx.holds(f, d, "%s' = %s / 10^((z_native - z_goal) * s(%s)), probits from the curve's own and the requested probability" % (key, key, sc))
+            return "the exponent is not (probit difference) * std", False
+        d_ = diff[0]
+        if not (is_call(d_[2], "norm.ppf") and is_call(d_[3], "norm.ppf")):
+            return "the probit difference is not a difference of two normal quantiles", False
+        a_, b_ = d_[2][2][0], d_[3][2][0]
+        if is_attr(a_, "failure_probability") and has_goal(b_) and not is_attr(b_, "failure_probability"):
+            pass
+        elif is_attr(b_, "failure_probability") and has_goal(a_) and not is_attr(a_, "failure_probability"):
+            return "the probit difference is z_goal - z_native (sign reversed)", True
         else:
-            ctx.violated(f, d or f.node, "shift of %s: %s" % (key, p), text="shift %s: %s" % (key, p[:60]))
-    st, val = stored.get("failure_probability", (f.node, None))
-    if isinstance(val, ast.Name) and val.id == goal:
-        ctx.holds(f, st, "the transformed curve's native probability is the goal probability")
+            return "the probit difference does not combine the curve's own and the requested probability", True
+        arg = std[0][2][0]
+        if not is_attr(arg, scatter):
+            other = [sc for sc in ("TS", "TN") if is_attr(arg, sc)]
+            return "the standard deviation is taken from %s, expected %s" % (other[0] if other else "another quantity", scatter), True
+        return None, True
+    sd_new = stored["SD"]
+    p, understood = shift(sd_new, "SD", "TS")
+    if p is None:
+        ctx.holds(f, f.node, "SD' = SD / 10^((z_native - z_goal) * s(TS)), probits from the curve's own and the requested probability")
+    elif understood:
+        ctx.violated(f, f.node, "shift of SD: %s" % p, text="shift SD: %s" % p[:60])
     else:
-        ctx.violated(f, st, "the transformed curve does not record the goal as its native failure "
-                     "probability: transforming again would start from the wrong quantile")
-    base = defs.get(tname, [])
-    ok = base and isinstance(base[0].value, ast.Call) and isinstance(base[0].value.func, ast.Attribute) and base[0].value.func.attr == "copy"
-    if ok:
-        ctx.holds(f, base[0], "the transformed data is a copy")
+        raise AnalysisError("transform_to_failure_probability: value stored under 'SD' not understood (%s)" % p)
+    nd_new = stored["ND"]
+    nd0, mask, moved = nd_new, None, None
+    if isinstance(nd_new, tuple) and len(nd_new) == 4 and nd_new[0] == "where":
+        _, mask, moved, nd0 = nd_new
+    p, understood = shift(nd0, "ND", "TN")
+    if p is None:
+        ctx.holds(f, f.node, "ND' = ND / 10^((z_native - z_goal) * s(TN)) before the move along the k_1 line")
+    elif understood:
+        ctx.violated(f, f.node, "shift of ND: %s" % p, text="shift ND: %s" % p[:60])
     else:
-        ctx.violated(f, base[0] if base else f.node, "the transformed curve is not built on a copy of the broadcast data")
-    # knee shift along the k_1 line
-    sdn = stored["SD"][1].id if isinstance(stored["SD"][1], ast.Name) else None
-    ndn = stored["ND"][1].id if isinstance(stored["ND"][1], ast.Name) else None
-    aug = [s for s in f.node.body if isinstance(s, ast.AugAssign) and isinstance(s.op, ast.Mult)]
-    ok = False
-    if len(aug) == 1 and isinstance(aug[0].value, ast.Call) and call_name(aug[0].value) == "np.power" and \
-            isinstance(_strip(aug[0].target), ast.Name) and _strip(aug[0].target).id == ndn:
-        b, e = aug[0].value.args
-        try:
-            ok = to_nf(b, atom=lambda x: ("SDn" if isinstance(_strip(x), ast.Name) and _strip(x).id == sdn and _strip(x) is x else
-                                          ("SD0" if isinstance(x, ast.Attribute) and x.attr == "SD" else None)), strip=_strip) \
-                == to_nf(parse_expr("SDn/SD0")) and to_nf(e, atom=_atom) == to_nf(parse_expr("-k1"), atom=_atom)
-        except NFUnsupported:
-            ok = False
-    if ok:
-        ctx.holds(f, aug[0], "ND' additionally moves along the k_1 line: *(SD'/SD)^-k_1")
+        raise AnalysisError("transform_to_failure_probability: value stored under 'ND' not understood (%s)" % p)
+    if "failure_probability" in stored and has_goal(stored["failure_probability"]) and \
+            not any(is_attr(y, "failure_probability") for y in term_walk(stored["failure_probability"])):
+        ctx.holds(f, f.node, "the transformed curve's native probability is the goal probability")
     else:
-        ctx.violated(f, aug[0] if aug else f.node, "knee cycle number is not moved along the k_1 line by (SD'/SD)^-k_1")
+        ctx.violated(f, f.node, "the transformed curve does not record the goal as its native failure "
+                     "probability: transforming again would start from the wrong quantile", text="native probability")
+    # knee shift along the k_1 line: ND'[SD' != 0] *= (SD'[...]/SD) ** (-k_1)
+    want_mask = tuple(sorted([("c", 0), sd_new], key=repr))
+    problem = None
+    if mask is None:
+        problem = "ND' is not moved along the k_1 line at all"
+    elif not (isinstance(mask, tuple) and len(mask) == 4 and mask[0] == "cmp" and mask[1] == "ne" and (mask[2], mask[3]) == want_mask):
+        problem = "the move along the k_1 line is applied under another condition than SD' != 0"
+    else:
+        ok = False
+        if is_op(moved, "*"):
+            for base_, fac in ((moved[2], moved[3]), (moved[3], moved[2])):
+                if base_ == ("at", nd0, mask) and is_op(fac, "**") and is_op(fac[2], "/") and fac[2][2] == ("at", sd_new, mask) and \
+                        is_attr(fac[2][3], "SD") and fac[3] == ("u", "usub", fac[3][2]) and is_attr(fac[3][2], "k_1"):
+                    ok = True
+        if not ok:
+            problem = "the factor is not (SD'/SD) ** (-k_1) applied to ND'"
+    if problem is None:
+        ctx.holds(f, f.node, "ND' additionally moves along the k_1 line: *(SD'/SD)^-k_1 exactly where SD' != 0")
+    else:
+        ctx.violated(f, f.node, "knee cycle number: %s (needed: ND' *= (SD'/SD)**(-k_1) where SD' != 0)" % problem,
+                     text="knee move: " + problem[:50])
+    # the stored items go into a copy of the broadcast data
+    base_ok = False
+    for s_ in walk_function(f.node):
+        if isinstance(s_, ast.Assign) and isinstance(s_.targets[0], ast.Subscript) and isinstance(s_.targets[0].value, ast.Name) and \
+                const_value(s_.targets[0].slice) == "SD":
+            tname = s_.targets[0].value.id
+            base = [d_ for d_ in walk_function(f.node) if isinstance(d_, ast.Assign) and isinstance(d_.targets[0], ast.Name)
+                    and d_.targets[0].id == tname]
+            base_ok = bool(base) and all(any(isinstance(c.func, ast.Attribute) and c.func.attr in ("copy", "to_frame", "assign")
+                                             for c in calls_in(d_.value)) or call_name(d_.value) in ("pd.DataFrame", "pd.Series")
+                                         for d_ in base)
+    if base_ok:
+        ctx.holds(f, f.node, "the transformed data is a copy")
+    else:
+        raise AnalysisError("transform_to_failure_probability: the object the results are stored in was not identified "
+                            "(the no-write rule R-C08-10 decides aliasing)")
 
 
 def _r8(ctx):
